@@ -246,6 +246,61 @@ pub fn replay_child(args: &[String]) {
 }
 
 /// Child entry: `verif c12portfolio <scenario...>`: a portfolio of two members with the given bodies' scenario.
+/// One-iteration scheduler that always runs the offered task with the lowest (`max == false`) or the
+/// highest (`max == true`) id: on `order_body` the first passes and the second fails, deterministically.
+struct Extreme {
+    max: bool,
+    done: bool,
+}
+impl Scheduler for Extreme {
+    fn new_execution(&mut self) -> Option<Schedule> {
+        if self.done {
+            None
+        } else {
+            self.done = true;
+            Some(Schedule::new(1))
+        }
+    }
+    fn next_task(&mut self, runnable: &[&Task], _c: Option<TaskId>, _y: bool) -> Option<TaskId> {
+        let it = runnable.iter().filter(|t| t.runnable()).map(|t| t.id());
+        if self.max {
+            it.max()
+        } else {
+            it.min()
+        }
+    }
+    fn next_u64(&mut self) -> u64 {
+        0
+    }
+}
+
+fn order_body() {
+    let flag = Arc::new(std::sync::atomic::AtomicBool::new(false));
+    let f2 = flag.clone();
+    let h = shuttle::thread::spawn(move || f2.store(true, std::sync::atomic::Ordering::SeqCst));
+    shuttle::thread::yield_now();
+    if flag.load(std::sync::atomic::Ordering::SeqCst) {
+        std::panic::panic_any(Marker(4242));
+    }
+    h.join().unwrap();
+}
+
+/// `c12portfolio2 <members, e.g. "fp" = failing then passing> <stop 0|1>`
+pub fn portfolio2_child(args: &[String]) {
+    let stop = args[1] == "1";
+    let mut cfg = config("N", "", Scenario::Pass);
+    cfg.failure_persistence = shuttle::FailurePersistence::None;
+    let mut pr = shuttle::PortfolioRunner::new(stop, cfg);
+    for c in args[0].chars() {
+        pr.add(Extreme { max: c == 'f', done: false });
+    }
+    let r = std::panic::catch_unwind(std::panic::AssertUnwindSafe(move || {
+        pr.run(order_body);
+        0usize
+    }));
+    println!("C12PORTFOLIO {}", outcome_of(r));
+}
+
 pub fn portfolio_child(args: &[String]) {
     let sc = Scenario::parse(&args[0]);
     let stop = args[1] == "1";
@@ -522,8 +577,29 @@ pub fn run(r: &mut Report) {
         }
     }
     let n_cases = cases.len();
-    let accs = oracle::parallel(n_cases + 4, oracle::workers().min(8), |i, acc| {
-        if i < n_cases {
+    // deterministic members: 'f' fails, 'p' passes; every position of the failing member, both stop modes
+    let orders: Vec<(&str, bool)> = vec![("fp", false), ("pf", false), ("fp", true), ("pf", true), ("pp", false), ("fpp", false), ("pfp", false), ("ppf", true), ("ff", false)];
+    let accs = oracle::parallel(n_cases + 4 + orders.len(), oracle::workers().min(8), |i, acc| {
+        if i >= n_cases + 4 {
+            let (members, stop) = orders[i - n_cases - 4];
+            let out = spawn(&["c12portfolio2".into(), members.into(), if stop { "1".into() } else { "0".into() }]);
+            acc.evaluations += 1;
+            acc.add("portfolio_runs", 1);
+            acc.distinct.insert(crate::util::hash64(format!("portfolio2{members}{stop}").as_bytes()));
+            let res = out.stdout.lines().find_map(|l| l.strip_prefix("C12PORTFOLIO ")).unwrap_or("").to_string();
+            let failed = !res.starts_with("pass:");
+            let should_fail = members.contains('f');
+            if res.is_empty() && out.stderr.starts_with("spawn failed") {
+                acc.notes.push(format!("portfolio child could not be started: {}", out.stderr));
+                acc.add("children_not_started", 1);
+            } else if res.is_empty() {
+                acc.violation("child-died", format!("portfolio child ended with status {:?} without a result", out.status), json!({"members": members}));
+            } else if should_fail && failed && res != "marker:4242" {
+                acc.violation("portfolio-payload", format!("portfolio with members {members:?}, stop_on_first_failure={stop}: a member failed with its own payload (marker 4242) but the portfolio run failed with {res:?}"), json!({"members": members, "stop_on_first_failure": stop}));
+            } else if failed != should_fail {
+                acc.violation("portfolio-verdict", format!("portfolio with members {members:?} (f = a scheduler under which the body fails, p = one under which it passes), stop_on_first_failure={stop}, ended {res:?}"), json!({"members": members, "stop_on_first_failure": stop}));
+            }
+        } else if i < n_cases {
             let (h, m, sc, seed) = &cases[i];
             one_case(h, m, *sc, *seed, acc);
         } else {
@@ -548,6 +624,6 @@ pub fn run(r: &mut Report) {
     for a in accs {
         a.merge_into(r);
     }
-    r.rule = "fresh child processes each run a history of 0-2 earlier Shuttle runs (persistence None/Print/File × passing/failing × same or another OS thread) followed by a target run of a failing body (panic in main / spawned thread / future / while holding a lock with a unique payload, lock-cycle deadlock, failing step bound; each fails only on some schedules) under None/Print/File; the parent checks the caught payload, parses the target run's stderr segment and the persistence directory for exactly the configured kind of emission, and replays the emitted schedule in another fresh child, which must fail the same way; portfolio runs must fail iff a member fails. evaluations = child processes with a history; distinct_nontrivial = distinct (history, mode, scenario) cases".into();
+    r.rule = "fresh child processes each run a history of 0-2 earlier Shuttle runs (persistence None/Print/File × passing/failing × same or another OS thread) followed by a target run of a failing body (panic in main / spawned thread / future / while holding a lock with a unique payload, lock-cycle deadlock, failing step bound; each fails only on some schedules) under None/Print/File; the parent checks the caught payload, parses the target run's stderr segment and the persistence directory for exactly the configured kind of emission, and replays the emitted schedule in another fresh child, which must fail the same way; portfolio runs must fail iff a member fails (random+PCT members on the scenario bodies, and deterministic members that fail / pass on one body in every order and both stop modes). evaluations = child processes with a history; distinct_nontrivial = distinct (history, mode, scenario) cases".into();
     r.assumptions = vec!["a target run that happens not to hit its failure in 400 random iterations is counted, not judged".into()];
 }
